@@ -28,6 +28,8 @@ func runC08(c *Ctx) {
 	ruleRoutableAPIDelegates(c, "R08.5", "ServeErrorFor")
 	ruleRoutableAPIDelegates(c, "R08.1", "ProducersFor", "DefaultProduces")
 	ruleOffersDefaultLast(c, "R08.2")
+	ruleAuthorizeErrorsVerbatim(c, "R08.5")
+	ruleParseAcceptStructure(c, "R08.2") // the negotiated type is chosen among the ranges ParseAccept yields
 	f := p.Fn("(*rt/middleware.Context).Respond")
 	rw, r, route, data := paramOf(f, 0), paramOf(f, 1), paramOf(f, 3), paramOf(f, 4)
 	_ = r
@@ -270,14 +272,20 @@ func runC08(c *Ctx) {
 			if k, _ := constString(a[0]); k != "WWW-Authenticate" {
 				continue
 			}
-			fb := vOrigins(oCall(-1, "rt/security.FailedBasicAuth"))
+			fb := vOrigins(oCall(-1, "rt/security.FailedBasicAuth"), oCallWhere(-1, "rt/security.FailedBasicAuthCtx", func(fc *ssa.Call) bool {
+				// FailedBasicAuth(r) is FailedBasicAuthCtx(r.Context()): the request's own context
+				okR, _ := allOrigins(fc.Call.Args[0], oCall(-1, "(*net/http.Request).Context"))
+				return okR
+			}))
 			g := guardedBy(ci, nil, factEqString(fb, "", false))
 			okV := false
 			for _, o := range originsOf(a[1]) {
 				if sp := asCall(o.V); sp != nil && calleeName(&sp.Call) == "fmt.Sprintf" {
 					fm, _ := constString(sp.Call.Args[0])
 					elems, okk := sliceLitElems(sp.Call.Args[1])
-					okV = strings.HasPrefix(fm, "Basic realm=") && okk && len(elems) == 1 && fb(elems[0])
+					// the realm is rendered by %q (or %s between literal quotes): %+q / %x … spell non-ASCII realms differently
+					okFmt := fm == "Basic realm=%q" || fm == "Basic realm=\"%s\""
+					okV = okFmt && okk && len(elems) == 1 && fb(elems[0])
 				}
 				// "Basic realm=" + strconv.Quote(realm), possibly built by a helper given the realm
 				if bo, isBo := o.V.(*ssa.BinOp); isBo && bo.Op == token.ADD {
@@ -529,4 +537,36 @@ func ruleOffersDefaultLast(c *Ctx, rule string) {
 		}
 		c.obI(rule, call, "earlier-offers-are-non-default-produces", okA, "before the default, only entries of the operation's produces list that differ from the default are offered (the default is never offered early, nor twice)", "an offer is appended that is not a produces entry tested to differ from the default")
 	}
+}
+
+// ruleAuthorizeErrorsVerbatim: an authentication failure reaches the error responder as the error the scheme produced:
+// Context.Authorize returns the authenticators' error itself, errors.Unauthenticated (401) when there is none, the
+// authorizer's own error, or a 403 built from it — nothing else is manufactured on the way.
+func ruleAuthorizeErrorsVerbatim(c *Ctx, rule string) {
+	f := c.P.Fn("(*rt/middleware.Context).Authorize")
+	auths := callsIn(f, "(rt/middleware.RouteAuthenticators).Authenticate")
+	if len(auths) != 1 {
+		c.obRF(rule, f, "authorize-authenticates", false, "Authorize consults the route's authenticators", fmt.Sprintf("%d calls", len(auths)))
+		return
+	}
+	a := auths[0].(*ssa.Call)
+	aerr := resultOf(a, 2)
+	isAuthzErr := func(o Origin) bool {
+		call := asCall(o.V)
+		return call != nil && call.Call.IsInvoke() && call.Call.Method.Name() == "Authorize"
+	}
+	n := 0
+	for _, r := range realReturns(f) {
+		if len(r.Results) != 3 || isNilConst(resOf(r, 2)) {
+			continue
+		}
+		n++
+		ok, bad := allOrigins(resOf(r, 2), oNil(), oIsValue(aerr), oCall(-1, "github.com/go-openapi/errors.Unauthenticated"), isAuthzErr,
+			oCallWhere(-1, "github.com/go-openapi/errors.New", func(call *ssa.Call) bool {
+				k, isK := constInt(call.Call.Args[0])
+				return isK && k == 403
+			}))
+		c.obI(rule, r, "authentication-error-handed-on-verbatim", ok, "the error Authorize returns is the scheme's own error, errors.Unauthenticated, the authorizer's error or a 403 made from it", "origin "+describeOrigin(bad))
+	}
+	c.obRF(rule, f, "authorize-can-refuse", n >= 1, "Authorize has refusing exits", "")
 }
